@@ -72,6 +72,9 @@ Definition effect (s : wstate) (o : op) (r : res) (s' : wstate) : Prop :=
       wfs s src <> None /\ under src dst = false /\ wfd s' = wfd s /\
       (forall q, under src q = true -> wfs s' q = None) /\
       (forall q, under src q = false -> under dst q = false -> wfs s' q = wfs s q) /\
+      (* whatever existed, other than the source tree and the destination itself, is untouched: shutil.move moves INTO an
+         existing directory, replaces an existing non-directory, or creates dst *)
+      (forall q, under src q = false -> q <> dst -> wfs s q <> None -> wfs s' q = wfs s q) /\
       (wfs s dst = None -> forall q, wfs s' q = mv_tree (wfs s) src dst q)
   | Makedirs p _, _ =>
       wfd s' = wfd s /\
@@ -124,7 +127,7 @@ Definition wapply (s : wstate) (o : op) (r : res) : option wstate :=
   | Rmtree _, _ => None
   | Move src dst, RUnit =>
       match wfs s src, wfs s dst with
-      | Some _, None => if under src dst || under dst src then None else Some (mkw (mv_tree (wfs s) src dst) (wfd s))
+      | Some _, None => if under src dst || under dst src || str_eqb dst [] then None else Some (mkw (mv_tree (wfs s) src dst) (wfd s))
       | _, _ => None
       end
   | Makedirs p _, RUnit =>
